@@ -8,6 +8,7 @@
 #include "glue/unit_api.h"
 #include "ref/refmisc.h"
 #include "ref/refproto.h"
+#include "client_common.h"
 using namespace hz;
 
 static std::string hx(const uint8_t *p, size_t n) { return hexs(Bytes(p, p + n), 64); }
@@ -80,6 +81,9 @@ static CaseResult system_case(Tape &t)
 	c.frag = 200;
 	scn::Session s(c);
 	Bytes pw(c.password.begin(), c.password.end());
+	// the challenge the server issues is its first rand() value: two cases in three force a boundary value of rand()'s range
+	static const int FORCED[] = {0, 1, 2, 0x7fffffff, 0x7ffffffe, 0x40000000, 0x3fffffff, 0x00ffffff, 0x01000000, 0x7fffff00};
+	int forced = t.chance(2, 3) ? FORCED[t.below(10)] : -1;
 	struct Seen { bool login = false, rawc = false, raws = false; std::string err; uint32_t challenge = 0; bool have_ch = false; int nlog = 0, nrawc = 0, nraws = 0, nrawping = 0; } S;
 	sim::W.on_send = [&](const sim::Datagram &dg) {
 		const Bytes &d = dg.data;
@@ -116,7 +120,9 @@ static CaseResult system_case(Tape &t)
 			}
 		}
 	};
-	s.start();
+	s.start_server();
+	if (forced >= 0) s.srv->rand_forced.push_back(forced);
+	s.start_client(0);
 	bool up = s.wait_handshake(0, 120);
 	if (up) sim::W.run_for(3000000);
 	char hd[256]; snprintf(hd, sizeof hd, "system: password(%zu)=%s type=%d challenge=0x%08x handshake=%d rawlogin c=%d s=%d", plen, hexs(pw, 40).c_str(), c.qtype, S.challenge, (int)up, S.nrawc, S.nraws);
@@ -125,15 +131,66 @@ static CaseResult system_case(Tape &t)
 	else if (!up) r.fail("C19:handshake", "honest handshake did not complete [" + r.render + "]\n" + s.cli[0]->log);
 	else if (!S.login || !S.rawc || !S.raws) r.fail("C19:coverage", "login / raw login frames not observed [" + r.render + "]");
 	else if (S.nrawping == 0) r.fail("C19:raw-not-entered", "server answered the raw login with hash(challenge-1) but the client did not switch to raw mode [" + r.render + "]");
+	if (r.ok && forced >= 0 && S.challenge != (uint32_t)forced) r.fail("C19:harness", "the forced challenge was not issued [" + r.render + "]");
 	r.nontrivial = S.login && S.rawc && S.raws;
 	r.cls("system");
+	if (forced >= 0) r.cls("system:boundary-challenge");
+	return r;
+}
+
+// real client against a scripted server (reference implementation) that issues ANY 32-bit challenge, also values the real
+// server's rand() never produces (>= 2^31) and the wrap-around cases of challenge+1 / challenge-1
+static CaseResult client_case(Tape &t)
+{
+	CaseResult r;
+	scn::Config c;
+	c.password.clear();
+	size_t plen = (size_t)t.range(1, 36);
+	int pclass = (int)t.below(2);
+	for (size_t i = 0; i < plen; i++) c.password += (char)(pclass == 0 ? t.range(0x21, 0x7e) : t.range(0x80, 0xfe));
+	c.raw_mode = true; c.qtype = 1 + (int)t.below(7); c.cli_seed = t.u32() | 1; c.frag = 200; c.nclients = 1;
+	scn::Session s(c);
+	cli::ScriptServer srv;
+	srv.domain = c.domain; srv.password.assign(c.password.begin(), c.password.end());
+	srv.seed = gen_challenge(t); srv.userid = (int)t.below(16);
+	srv.attach();
+	Bytes pw = srv.password;
+	int nlog = 0, nraw = 0, nrawtraffic = 0; std::string err;
+	sim::W.on_send = [&](const sim::Datagram &dg) {
+		if (dg.from_inst < 0) return;
+		const Bytes &d = dg.data;
+		if (d.size() >= 4 && d[0] == 0x10 && d[1] == 0xd1 && d[2] == 0x9e) {
+			if ((d[3] & 0xf0) == 0x10) { uint8_t w[16]; ref::login_hash(pw, srv.seed + 1, w); nraw++; if (d.size() < 20 || memcmp(w, d.data() + 4, 16)) err = "client raw login is not hash(challenge+1)"; }
+			else nrawtraffic++;
+			return;
+		}
+		refproto::Query q;
+		if (refproto::decode_query(d, c.domain, q) && (q.cmd == 'l' || q.cmd == 'L')) {
+			Bytes body = ref::codec_decode(0, q.rest, true);
+			uint8_t w[16]; ref::login_hash(pw, srv.seed, w); nlog++;
+			if (body.size() < 17 || memcmp(w, body.data() + 1, 16)) err = "bytes 1..16 of the login message are not hash(challenge)";
+		}
+	};
+	s.start_client(0);
+	bool up = s.wait_handshake(0, 120);
+	if (up) sim::W.run_for(3000000);
+	char hd[256]; snprintf(hd, sizeof hd, "client vs reference server: password(%zu)=%s type=%d challenge=0x%08x handshake=%d logins=%d rawlogins=%d raw frames after=%d", plen, hexs(pw, 40).c_str(), c.qtype, srv.seed, (int)up, nlog, nraw, nrawtraffic);
+	r.render = hd;
+	if (!err.empty()) r.fail("C19:wire", err + " [" + r.render + "]");
+	else if (!up) r.fail("C19:handshake", "handshake with the reference server did not complete [" + r.render + "]\n" + s.cli[0]->log);
+	else if (!nlog || !nraw) r.fail("C19:coverage", "login / raw login not observed [" + r.render + "]");
+	else if (!srv.raw_mode) r.fail("C19:wire", "the reference server did not accept the client's raw login [" + r.render + "]");
+	else if (!nrawtraffic) r.fail("C19:raw-not-entered", "the reference server answered the raw login with hash(challenge-1) but the client did not switch to raw mode [" + r.render + "]");
+	r.nontrivial = nlog && nraw;
+	r.cls("client-vs-reference-server");
+	if (srv.seed >= 0x80000000u) r.cls("challenge>=2^31");
+	if (srv.seed == 0 || srv.seed == 0xffffffffu) r.cls("challenge-wraps");
 	return r;
 }
 
 static CaseResult run_case(Tape &t)
 {
-	if (t.pick({30, 1}) == 1) return system_case(t);
-	return unit_case(t);
+	switch (t.pick({60, 1, 1})) { case 1: return system_case(t); case 2: return client_case(t); default: return unit_case(t); }
 }
 
 int main(int argc, char **argv)
